@@ -33,6 +33,9 @@ pub enum Ans {
     NodesTwoPackets { picks: Vec<u16> },
     /// an empty NODES answer
     Empty,
+    /// the first of two announced packets arrives (up to 4 records), then the request fails: what was
+    /// received is still handed to the lookup
+    PartialThenFail { picks: Vec<u16> },
     Fail,
     /// no outcome for now: the request stays outstanding and is answered (empty NODES) while the NEXT
     /// lookup of the case is running - a late answer to a request of a lookup that is over
@@ -71,6 +74,16 @@ pub struct LookupCase {
     /// dual-stack service, all records advertise an IPv4 and an IPv6 socket
     #[serde(default)]
     pub dual: bool,
+    /// configured query_parallelism: 0 = the default (3), else 1 or 2
+    #[serde(default)]
+    pub parallelism: u8,
+    /// a predicate lookup that asks for ZERO results (it must still hand its - empty - result over)
+    #[serde(default)]
+    pub zero_results: bool,
+    /// the first answer of the case carries 17..24 records in five packets (only with a configured
+    /// max_nodes_response of 24 or 64, which lets the service collect them all)
+    #[serde(default)]
+    pub big_first_answer: u8,
 }
 
 const LPOOL: u32 = 240;
@@ -137,6 +150,8 @@ async fn drive(
     let mut idle = 0;
     let mut closer_learnt_later = false;
     let mut held_here = false;
+    let mut big_answers = 0usize;
+    let mut partial_answers = 0usize;
     let mut rounds_with_requests = 0usize;
     let mut removed_candidate = false;
     let mut rounds = 0;
@@ -158,6 +173,11 @@ async fn drive(
                 break;
             }
             idle += 1;
+            if idle == 3 {
+                // a request that ended without the lookup being told (e.g. a failure after an EMPTY first
+                // packet of a multi-packet answer) is only resolved by the lookup's own peer time-out
+                tokio::time::sleep(std::time::Duration::from_secs(3)).await;
+            }
             q.settle().await;
             continue;
         }
@@ -175,11 +195,12 @@ async fn drive(
         rounds_with_requests += 1;
         in_flight += reqs.len();
         // while iterating a lookup keeps `parallelism` requests in flight, once stalled up to k
-        let bound = PARALLELISM.max(k);
+        let par = if c.parallelism == 0 { PARALLELISM } else { c.parallelism.min(2) as usize };
+        let bound = par.max(k);
         if in_flight > bound {
             return Err((
                 "lookup/parallelism-exceeded".into(),
-                format!("the {which} lookup has {in_flight} FINDNODE requests in flight; parallelism {PARALLELISM}, k = {k}"),
+                format!("the {which} lookup has {in_flight} FINDNODE requests in flight; configured parallelism {par}, k = {k}"),
             ));
         }
         // answers to requests of the PREVIOUS lookup arrive now, while this one is waiting
@@ -214,6 +235,8 @@ async fn drive(
                 }
                 v
             };
+            let big = if *n_req == 1 && c.big_first_answer > 0 && c.max_nodes >= 3 && which == "first" && !c.predicate { Some(17 + (c.big_first_answer as usize % 8)) } else { None };
+            let ans = if big.is_some() { &Ans::Empty } else { ans };
             let mut packets: Vec<Vec<discv5::Enr>> = match ans {
                 Ans::Fail => {
                     q.inject(HandlerOut::RequestFailed(id.clone(), RequestError::Timeout)).await;
@@ -226,6 +249,21 @@ async fn drive(
                     continue;
                 }
                 Ans::Empty => vec![vec![]],
+                Ans::PartialThenFail { picks } => {
+                    let v = pick(picks);
+                    for e in &v {
+                        learned.entry(e.node_id().raw()).or_insert_with(|| e.clone());
+                    }
+                    q.inject(HandlerOut::Response(na.clone(), Box::new(Response { id: id.clone(), body: ResponseBody::Nodes { total: 2, nodes: v.clone() } }))).await;
+                    q.inject(HandlerOut::RequestFailed(id.clone(), RequestError::Timeout)).await;
+                    in_flight -= 1;
+                    if !v.is_empty() {
+                        // (the responder counts as having answered: its partial answer is used)
+                        answered.insert(rid);
+                        partial_answers += 1;
+                    }
+                    continue;
+                }
                 Ans::Nodes { picks, farthest_first } => {
                     let mut v = pick(picks);
                     v.sort_by_key(|e| ids::xor(&e.node_id().raw(), &target));
@@ -240,6 +278,17 @@ async fn drive(
                     vec![v[..h].to_vec(), v[h..].to_vec()]
                 }
             };
+            if let Some(nbig) = big {
+                // 17..24 distinct records at the requested distances, closest first, in five packets
+                let mut v: Vec<discv5::Enr> = matching.clone();
+                v.sort_by_key(|e| ids::xor(&e.node_id().raw(), &target));
+                v.truncate(nbig);
+                if v.len() > 16 {
+                    let per = v.len().div_ceil(5);
+                    packets = v.chunks(per).map(|c| c.to_vec()).collect();
+                    big_answers += 1;
+                }
+            }
             let total = packets.len() as u64;
             for nodes in packets.drain(..) {
                 for e in &nodes {
@@ -313,15 +362,39 @@ async fn drive(
             }
         }
     }
-    let _ = removed_candidate;
+    let _ = (removed_candidate, big_answers, partial_answers);
     Ok(Driven { finished: true, results: ids_out.len(), closer_learnt_later, held_any: held_here })
+}
+
+async fn run_zero_results(q: &mut Svc, target: ids::Id, rep: &mut CaseReport) -> Option<(String, String)> {
+    let handle = tokio::spawn(q.d.find_node_predicate(ids::node_id(&target), Box::new(odd_port), 0));
+    for _ in 0..6 {
+        q.settle().await;
+        if handle.is_finished() {
+            break;
+        }
+    }
+    if !handle.is_finished() {
+        handle.abort();
+        return Some(("lookup/not-finished-although-every-request-got-an-outcome".into(), "a predicate lookup asking for 0 results has nothing to wait for, and its future is still pending".into()));
+    }
+    rep.class("lookup/predicate-lookup-for-zero-results");
+    match handle.await {
+        Ok(Ok(v)) if v.is_empty() => None,
+        Ok(Ok(v)) => Some(("lookup/too-many-results".into(), format!("{} nodes returned by a predicate lookup that asked for 0", v.len()))),
+        Ok(Err(e)) => Some(("lookup/error".into(), format!("find_node_predicate(.., 0) returned {e:?} instead of an empty result"))),
+        Err(e) => Some((format!("panic-in-task/{e}"), "the lookup task panicked".into())),
+    }
 }
 
 async fn run_lookup(c: &LookupCase, rep: &mut CaseReport) -> Option<(String, String)> {
     reset_globals();
     let mnr = [None, Some(4usize), Some(8), Some(24), Some(64)][c.max_nodes as usize % 5];
     LOOKUP_DUAL.with(|d| d.set(c.dual));
-    let mut q = Svc::new(SvcConfig { key_idx: 0, max_nodes_response: mnr, mode: if c.dual { Mode::Dual } else { Mode::Ip4 }, ..Default::default() }).await;
+    let mut q = Svc::new(SvcConfig { key_idx: 0, max_nodes_response: mnr, mode: if c.dual { Mode::Dual } else { Mode::Ip4 }, query_parallelism: if c.parallelism == 0 { None } else { Some(c.parallelism.min(2) as usize) }, ..Default::default() }).await;
+    if c.parallelism != 0 {
+        rep.class(format!("lookup/configured-parallelism-{}", c.parallelism.min(2)));
+    }
     if c.dual {
         rep.class("lookup/dual-stack-service-and-records");
     }
@@ -338,6 +411,11 @@ async fn run_lookup(c: &LookupCase, rep: &mut CaseReport) -> Option<(String, Str
     if c.target_known {
         let _ = q.d.add_enr(lrec(c.target as u32 + 7));
         rep.class("lookup/target-is-a-known-peer");
+    }
+    if c.zero_results {
+        if let Some(v) = run_zero_results(&mut q, target, rep).await {
+            return Some(v);
+        }
     }
     let mut n_req = 0usize;
     let mut held: Vec<Held> = Vec::new();
@@ -388,6 +466,7 @@ fn lookup_strategy() -> BoxedStrategy<LookupCase> {
         8 => (picks(), any::<bool>()).prop_map(|(picks, farthest_first)| Ans::Nodes { picks, farthest_first }),
         2 => picks().prop_map(|picks| Ans::NodesTwoPackets { picks }),
         1 => Just(Ans::Empty),
+        2 => picks().prop_map(|picks| Ans::PartialThenFail { picks }),
         2 => Just(Ans::Fail),
         2 => Just(Ans::Hold),
     ];
@@ -402,8 +481,16 @@ fn lookup_strategy() -> BoxedStrategy<LookupCase> {
         prop_oneof![3 => Just(false), 1 => Just(true)],
         proptest::option::weighted(0.25, any::<u16>()),
         prop_oneof![3 => Just(false), 1 => Just(true)],
+        (prop_oneof![2 => Just(0u8), 1 => Just(1u8), 1 => Just(2u8)], prop_oneof![5 => Just(false), 1 => Just(true)], prop_oneof![2 => Just(0u8), 1 => 1u8..=8]),
     )
-        .prop_map(|(target, known, script, predicate, num, second, max_nodes, target_known, remove_during, dual)| LookupCase { target, known, script, predicate, num, second, max_nodes, target_known, remove_during, dual })
+        .prop_map(|(target, known, script, predicate, num, second, max_nodes, target_known, remove_during, dual, (parallelism, zero_results, big_first_answer))| {
+            let mut script = script;
+            if big_first_answer > 0 && max_nodes >= 3 && !predicate {
+                // after the big answer most requests fail: the result stays short and every candidate counts
+                script = vec![Ans::Empty, Ans::Fail, Ans::Fail, Ans::Fail, Ans::Fail, Ans::Fail, Ans::Fail, Ans::Fail, Ans::Fail, Ans::Fail, Ans::Fail, Ans::Fail, Ans::Fail, Ans::Fail, Ans::Fail, Ans::Fail, Ans::Fail, Ans::Fail, Ans::Fail, Ans::Fail, Ans::Fail, Ans::Fail, Ans::Fail, Ans::Fail, Ans::Fail, Ans::Fail];
+            }
+            LookupCase { target, known, script, predicate, num, second, max_nodes, target_known, remove_during, dual, parallelism, zero_results, big_first_answer }
+        })
         .boxed()
 }
 
@@ -450,7 +537,7 @@ impl Property for C10 {
         rep
     }
     fn rule() -> String {
-        "the C09 machine histories (real FindNodeQuery / PredicateQuery, explicit clock, drain at the end); at the end into_result() is checked: R1 <= num_results ids, pairwise distinct, strictly increasing XOR distance (harness arithmetic); R2 every id was handed out by next() and a success was delivered for it while it was outstanding and before the finish; R3 (predicate variant) every id was reported (initial list or accepted success) with a value satisfying the predicate; R4 if fewer than num_results ids are returned every candidate (first num_results initial ids + ids inside accepted successes) was contacted. One case in 14 is a whole lookup through the public API (Discv5::find_node / find_node_predicate on a real service behind a scripted handler): 1..10 known peers (in a quarter of the cases the node whose id is the target is one of them), a pool of 240 signed records, every FINDNODE the lookup emits is answered per script with 0..4 records at the requested distances (sorted towards the target, farthest first, split over two packets, empty) or failed; requests may also be left without an outcome for the time being; the Vec<Enr> the caller gets back is checked for <= k distinct nodes in strictly increasing distance, every node having answered, predicate satisfied, and completeness when short (predicate lookups ask for 1..4 or 16 results, so the table may hold more entries than the lookup starts from); at no time more than max(parallelism = 3, k) FINDNODEs of a lookup are in flight; the service is IPv4-only or (a quarter of the cases) dual-stack with records advertising both families; its max_nodes_response is the default or 4 / 8 / 24 / 64 (no answer is truncated by it; k stays 16); in a quarter of the cases the application removes a not yet contacted known peer from the routing table while the first requests are out (it remains a candidate); in half of the cases a second lookup runs on the same service afterwards, and the requests of the first lookup that were left open are answered while the second one is waiting. Non-trivial = result shorter than num_results with >=1 failure and >=1 result, or exactly num_results results out of more successes; (lookup) >= 2 results and a node closer to the target was learnt after a farther one.".into()
+        "the C09 machine histories (real FindNodeQuery / PredicateQuery, explicit clock, drain at the end); at the end into_result() is checked: R1 <= num_results ids, pairwise distinct, strictly increasing XOR distance (harness arithmetic); R2 every id was handed out by next() and a success was delivered for it while it was outstanding and before the finish; R3 (predicate variant) every id was reported (initial list or accepted success) with a value satisfying the predicate; R4 if fewer than num_results ids are returned every candidate (first num_results initial ids + ids inside accepted successes) was contacted. One case in 14 is a whole lookup through the public API (Discv5::find_node / find_node_predicate on a real service behind a scripted handler): 1..10 known peers (in a quarter of the cases the node whose id is the target is one of them), a pool of 240 signed records, every FINDNODE the lookup emits is answered per script with 0..4 records at the requested distances (sorted towards the target, farthest first, split over two packets, empty, or only the first of two announced packets followed by a failure of the request) or failed; requests may also be left without an outcome for the time being; the Vec<Enr> the caller gets back is checked for <= k distinct nodes in strictly increasing distance, every node having answered, predicate satisfied, and completeness when short (predicate lookups ask for 1..4 or 16 results, so the table may hold more entries than the lookup starts from); at no time more than max(parallelism = 3, k) FINDNODEs of a lookup are in flight; the service is IPv4-only or (a quarter of the cases) dual-stack with records advertising both families; its query_parallelism is the default 3 or 1 or 2; its max_nodes_response is the default or 4 / 8 / 24 / 64 (no answer is truncated by it; k stays 16); in a quarter of the cases the application removes a not yet contacted known peer from the routing table while the first requests are out (it remains a candidate); in half of the cases a second lookup runs on the same service afterwards, and the requests of the first lookup that were left open are answered while the second one is waiting. Non-trivial = result shorter than num_results with >=1 failure and >=1 result, or exactly num_results results out of more successes; (lookup) >= 2 results and a node closer to the target was learnt after a farther one.".into()
     }
     fn assumptions() -> Vec<String> {
         vec![
